@@ -33,6 +33,32 @@ type embOuter struct {
 	Y int
 }
 
+// structs that embed something other than a struct: a named slice, map, string, number, a pointer to one, an interface
+type embSlice struct {
+	namedSlice
+	T string `liquid:"title"`
+}
+type embMap struct {
+	namedMap
+	T string `liquid:"title"`
+}
+type embStr struct {
+	namedStr
+	N int
+}
+type embPtrInt struct {
+	*namedInt
+	T string `liquid:"title"`
+}
+type embIface struct {
+	fmt.Stringer
+	T string `liquid:"title"`
+}
+type embDeep struct {
+	embSlice
+	embStr
+}
+
 type plainStruct struct {
 	A    int
 	B    string
@@ -82,6 +108,8 @@ func weirdEnv() map[string]any {
 		// a named string type; a struct whose embedded pointer is nil; named numeric and boolean types
 		"nstr": namedStr("a b c"), "emb": embOuter{Y: 1}, "pemb": &embOuter{Y: 2}, "nint": namedInt(7), "nbool": namedBool(true), "nflt": namedFloat(2.5),
 		"nslice": namedSlice{1, "a"}, "nmap": namedMap{"k": 1},
+		"esl": embSlice{namedSlice{1, 2}, "t"}, "pesl": &embSlice{nil, "t"}, "emp": embMap{namedMap{"k": 1}, "t"}, "estr": embStr{"s", 1}, "pestr": &embStr{"s", 1},
+		"epi": embPtrInt{nil, "t"}, "eif": embIface{time.Unix(86400, 0).UTC(), "t"}, // (an embedded interface that holds nothing would make the struct's own promoted methods panic: not plain data) "peif": &embIface{time.Unix(0, 0).UTC(), "t"}, "edeep": embDeep{embSlice{namedSlice{1}, "t"}, embStr{"s", 2}},
 		"msw": yaml.MapSlice{{Key: []any{1}, Value: "v"}, {Key: map[string]any{"k": 1}, Value: 2}, {Key: "k", Value: 3}}, "one": []any{1},
 	}
 }
@@ -375,6 +403,31 @@ func genWeirdPairs(r *rand.Rand, i int) J {
 }
 
 func init() { generators["weirdpairs"] = genWeirdPairs }
+
+// "weirdprops": every binding of the environment asked for a property - one it has, one it lacks, the Go name of a
+// tagged field, the names the arrays and maps answer to - by dot, by subscript and through contains
+var weirdPropNames = []string{"nosuch", "title", "T", "size", "first", "last", "X", "Y", "N", "k", "A", "Name", "Len", "String", "namedSlice", "embStr"}
+var weirdPropForms = []string{"{{ %s.%s }}", "{{ %s[\"%s\"] }}", "{%% if %s contains \"%s\" %%}y{%% else %%}n{%% endif %%}", "{%% assign v = %s %%}{{ v.%s | default: 'd' }}"}
+var weirdBindingNames []string
+
+func genWeirdProps(r *rand.Rand, i int) J {
+	if weirdBindingNames == nil {
+		for k := range weirdEnv() {
+			weirdBindingNames = append(weirdBindingNames, k)
+		}
+		sort.Strings(weirdBindingNames)
+	}
+	total := len(weirdBindingNames) * len(weirdPropNames) * len(weirdPropForms)
+	if i >= total {
+		return nil
+	}
+	f := weirdPropForms[i%len(weirdPropForms)]
+	p := weirdPropNames[(i/len(weirdPropForms))%len(weirdPropNames)]
+	a := weirdBindingNames[i/len(weirdPropForms)/len(weirdPropNames)]
+	return J{"kind": "render", "src": bs(fmt.Sprintf(f, a, p)), "env": []any{}, "weird": true, "nospec": true, "tm": "TraceC01"}
+}
+
+func init() { generators["weirdprops"] = genWeirdProps }
 
 // "scaling": every filter applied to something big - a range of 100000 integers, bound arrays of 100000 integers
 // (distinct / all equal / strings), a text of 300 kB - alone and in two-filter chains.  The render has to come back
